@@ -144,9 +144,16 @@ type bstOf[T helper.Number] struct {
 	t    *helper.Bst[T]
 	vals []T
 	nm   string
+	zero bool // the tree is the zero value of the exported type (var t helper.Bst[T]), not the result of NewBst
 }
 
-func (b *bstOf[T]) reset()              { b.t = helper.NewBst[T]() }
+func (b *bstOf[T]) reset() {
+	if b.zero {
+		b.t = &helper.Bst[T]{}
+		return
+	}
+	b.t = helper.NewBst[T]()
+}
 func (b *bstOf[T]) insert(i int)        { b.t.Insert(b.vals[i]) }
 func (b *bstOf[T]) remove(i int) bool   { return b.t.Remove(b.vals[i]) }
 func (b *bstOf[T]) contains(i int) bool { return b.t.Contains(b.vals[i]) }
@@ -167,6 +174,11 @@ func bstDrivers() []bstDriver {
 		&bstOf[int32]{vals: []int32{math.MinInt32, -1, 0, 1, math.MaxInt32}, nm: "int32"},
 		&bstOf[int64]{vals: []int64{math.MinInt64, -1, 0, 1, math.MaxInt64}, nm: "int64"},
 		&bstOf[int]{vals: []int{math.MinInt, -1, 0, 1, math.MaxInt}, nm: "int"},
+		// the zero value of the exported type is an empty tree too (every method works on a nil root)
+		&bstOf[int]{vals: []int{-7, -2, 3, 5, 100}, nm: "int-zero-value", zero: true},
+		&bstOf[float64]{vals: []float64{-1.25, -0.5, 0.75, 3, 100}, nm: "float64-zero-value", zero: true},
+		&bstOf[int8]{vals: []int8{1, 2, 3, 100, 127}, nm: "int8-zero-value-positive", zero: true},
+		&bstOf[int16]{vals: []int16{-300, -20, -3, -2, -1}, nm: "int16-zero-value-negative", zero: true},
 		// neighbours that collapse when converted to float64 (53-bit mantissa) or float32
 		&bstOf[int64]{vals: []int64{math.MinInt64, math.MinInt64 + 1, 1 << 53, 1<<53 + 1, math.MaxInt64 - 1, math.MaxInt64}, nm: "int64-neighbours"},
 		&bstOf[int]{vals: []int{-(1 << 60) - 3, 1<<60 + 3, 1<<60 + 5, 1<<60 + 7}, nm: "int-neighbours"},
